@@ -28,8 +28,212 @@ fn dm<M: Fl>(a: M, b: M) -> Vec<X> {
         .collect()
 }
 
+
+use super::vec::Rd;
+
+fn xs<T: Fl>(t: T) -> Vec<X> {
+    let mut v = vec![];
+    t.fl(&mut v);
+    v.into_iter().map(|x| match x { Val::S(x) => x, Val::B(b) => X::int(if b { 0 } else { 1 }) }).collect()
+}
+fn diff<T: Fl>(a: T, b: T) -> Vec<X> {
+    xs(a).into_iter().zip(xs(b)).map(|(x, y)| x - y).collect()
+}
+fn is0(v: &[X]) -> bool {
+    v.iter().all(|x| x.val().is_zero())
+}
+
+fn mat_generic<M>(op: &str) -> Option<OpFn>
+where
+    M: Rd + Fl + Copy + SquareMatrix<Scalar = X> + Zero + 'static,
+    M::ColumnRow: Rd + Fl + Copy + std::ops::Add<Output = M::ColumnRow> + std::ops::Mul<X, Output = M::ColumnRow> + Zero,
+{
+    Some(match op {
+        // C01: A*(B*v) = (A*B)*v ; A*v = sum_c col_c * v[c] ; col_c(A*B) = A*col_c(B) ; linearity
+        "product" => |a| {
+            let (p, q, v, w, s) = (M::rd(a), M::rd(a), M::ColumnRow::rd(a), M::ColumnRow::rd(a), a.x());
+            let n = M::ColumnRow::len();
+            let mut r = diff(p * (q * v), (p * q) * v);
+            let mut acc = M::ColumnRow::zero();
+            for c in 0..n { acc = acc + p[c] * v[c]; }
+            r.extend(diff(p * v, acc));
+            let pq = p * q;
+            for c in 0..n { r.extend(diff(pq[c], p * q[c])); }
+            r.extend(diff(p * (v + w), p * v + p * w));
+            r.extend(diff(p * (v * s), (p * v) * s));
+            // rows / transpose / diagonal / trace read the documented elements
+            let t = p.transpose();
+            let mut tr = X::int(0);
+            for c in 0..n {
+                r.extend(diff(p.row(c), t[c]));
+                r.push(p.diagonal()[c] - p[c][c]);
+                tr = tr + p[c][c];
+                for rr in 0..n { r.push(t[c][rr] - p[rr][c]); }
+            }
+            r.push(p.trace() - tr);
+            ok(r)
+        },
+        // C01: ring laws + element-wise sum/difference/negation/scalar multiples + identity/from_value/from_diagonal
+        "ring" => |a| {
+            let (p, q, w, s, d) = (M::rd(a), M::rd(a), M::rd(a), a.x(), M::ColumnRow::rd(a));
+            let n = M::ColumnRow::len();
+            let mut r = diff((p * q) * w, p * (q * w));
+            r.extend(diff(p * (q + w), p * q + p * w));
+            r.extend(diff((p + q) * w, p * w + q * w));
+            r.extend(diff(M::identity() * p, p));
+            r.extend(diff(p * M::identity(), p));
+            let (sum, dif, sc, neg) = (p + q, p - q, p * s, p - p - p);
+            let (fv, fd) = (M::from_value(s), M::from_diagonal(d));
+            for c in 0..n { for rr in 0..n {
+                r.push(sum[c][rr] - (p[c][rr] + q[c][rr]));
+                r.push(dif[c][rr] - (p[c][rr] - q[c][rr]));
+                r.push(sc[c][rr] - p[c][rr] * s);
+                r.push(neg[c][rr] + p[c][rr]);
+                r.push(fv[c][rr] - if c == rr { s } else { X::int(0) });
+                r.push(fd[c][rr] - if c == rr { d[c] } else { X::int(0) });
+            }}
+            ok(r)
+        },
+        // C02: invert() None iff det = 0, else two-sided inverse
+        "inverse" => |a| {
+            let m = M::rd(a);
+            let det = m.determinant();
+            match m.invert() {
+                None => ok(det),
+                Some(i) => {
+                    let mut r = diff(m * i, M::identity());
+                    r.extend(diff(i * m, M::identity()));
+                    r.push(if det.val().is_zero() { X::int(1) } else { X::int(0) });
+                    ok(r)
+                }
+            }
+        },
+        // C02: det multiplicative, transpose-invariant; (AB)^T = B^T A^T; transpose involution; transpose_self
+        "det_laws" => |a| {
+            let (p, q) = (M::rd(a), M::rd(a));
+            let mut r = vec![(p * q).determinant() - p.determinant() * q.determinant(),
+                             p.transpose().determinant() - p.determinant()];
+            r.extend(diff((p * q).transpose(), q.transpose() * p.transpose()));
+            r.extend(diff(p.transpose().transpose(), p));
+            let mut t = p; t.transpose_self();
+            r.extend(diff(t, p.transpose()));
+            ok(r)
+        },
+        // C02: swaps exchange exactly the named rows/columns/elements; replace_col
+        "swaps" => |a| {
+            let (m, i, j, k, l, v) = (M::rd(a), a.i(), a.i(), a.i(), a.i(), M::ColumnRow::rd(a));
+            let n = M::ColumnRow::len();
+            let sw = |x: usize, p: usize, q: usize| if x == p { q } else if x == q { p } else { x };
+            let mut r = vec![];
+            let mut mr = m; mr.swap_rows(i, j);
+            let mut mc = m; mc.swap_columns(i, j);
+            let mut me = m; me.swap_elements((i, j), (k, l));
+            let mut mp = m; let old = mp.replace_col(i, v);
+            r.extend(diff(old, m[i]));
+            for c in 0..n { for rr in 0..n {
+                r.push(mr[c][rr] - m[c][sw(rr, i, j)]);
+                r.push(mc[c][rr] - m[sw(c, i, j)][rr]);
+                let e = if (c, rr) == (i, j) { m[k][l] } else if (c, rr) == (k, l) { m[i][j] } else { m[c][rr] };
+                r.push(me[c][rr] - e);
+                r.push(mp[c][rr] - if c == i { v[rr] } else { m[c][rr] });
+            }}
+            ok(r)
+        },
+        _ => return None,
+    })
+}
+
+fn point_generic<P>(op: &str) -> Option<OpFn>
+where
+    P: Rd + Fl + Copy + EuclideanSpace<Scalar = X> + 'static,
+    P::Diff: Rd + Fl + Copy + std::ops::Neg<Output = P::Diff> + Zero + std::ops::Div<X, Output = P::Diff>,
+{
+    Some(match op {
+        "affine" => |a| {
+            let (p, q, v, w) = (P::rd(a), P::rd(a), P::Diff::rd(a), P::Diff::rd(a));
+            let mut r = diff((p + v) - p, v);
+            r.extend(diff(p + (q - p), q));
+            r.extend(diff((p + v) + w, p + (v + w)));
+            r.extend(diff(p - v, p + (-v)));
+            r.extend(diff(P::from_vec(p.to_vec()), p));
+            r.extend(diff(P::from_vec(v).to_vec(), v));
+            r.extend(diff(P::origin().to_vec(), P::Diff::zero()));
+            let two = X::int(2);
+            r.extend(diff(p.midpoint(q), p + (q - p) / two));
+            ok(r)
+        },
+        "centroid" => |a| {
+            let mut l = vec![];
+            while a.remaining() > 0 { l.push(P::rd(a)); }
+            if l.is_empty() { return Out::Skip; }
+            let mut acc = P::Diff::zero();
+            for p in &l { acc = acc + p.to_vec(); }
+            let n = X::int(l.len() as i64);
+            ok(diff(P::centroid(&l).to_vec(), acc / n))
+        },
+        _ => return None,
+    })
+}
+
 pub fn lookup(name: &str) -> Option<OpFn> {
+    if let Some((ty, op)) = name.strip_prefix("o.").and_then(|r| r.split_once('.')) {
+        let f = match ty {
+            "m2" => mat_generic::<Matrix2<X>>(op),
+            "m3" => mat_generic::<Matrix3<X>>(op),
+            "m4" => mat_generic::<Matrix4<X>>(op),
+            "p1" => point_generic::<Point1<X>>(op),
+            "p2" => point_generic::<Point2<X>>(op),
+            "p3" => point_generic::<Point3<X>>(op),
+            _ => None,
+        };
+        if f.is_some() { return f; }
+    }
     Some(match name {
+        // ---------------------------------------------------------------- C01 constructors
+        "o.m4.constructors" => |a| {
+            let (t, p, v, s, x, y, z) = (a.v3(), a.p3(), a.v3(), a.x(), a.x(), a.x(), a.x());
+            let mut r = diff(Matrix4::from_translation(t).transform_point(p), p + t);
+            r.extend(diff(Matrix4::from_translation(t).transform_vector(v), v));
+            r.extend(diff(Matrix4::from_scale(s).transform_point(p), p * s));
+            r.extend(diff(Matrix4::from_scale(s).transform_vector(v), v * s));
+            r.extend(diff(Matrix4::from_nonuniform_scale(x, y, z).transform_point(p), Point3::new(p.x * x, p.y * y, p.z * z)));
+            r.extend(diff(Matrix4::from_nonuniform_scale(x, y, z).transform_vector(v), Vector3::new(v.x * x, v.y * y, v.z * z)));
+            ok(r)
+        },
+        "o.m3.constructors" => |a| {
+            let (t, p, v, s, x, y) = (a.v2(), a.p2(), a.v2(), a.x(), a.x(), a.x());
+            type T = Matrix3<X>;
+            let tp = |m: T, p: Point2<X>| <T as Transform<Point2<X>>>::transform_point(&m, p);
+            let tv = |m: T, v: Vector2<X>| <T as Transform<Point2<X>>>::transform_vector(&m, v);
+            let mut r = diff(tp(Matrix3::from_translation(t), p), p + t);
+            r.extend(diff(tv(Matrix3::from_translation(t), v), v));
+            r.extend(diff(tp(Matrix3::from_scale(s), p), p * s));
+            r.extend(diff(tv(Matrix3::from_scale(s), v), v * s));
+            r.extend(diff(tp(Matrix3::from_nonuniform_scale(x, y), p), Point2::new(p.x * x, p.y * y)));
+            r.extend(diff(tv(Matrix3::from_nonuniform_scale(x, y), v), Vector2::new(v.x * x, v.y * y)));
+            ok(r)
+        },
+        "o.m.embed" => |a| {
+            let (m2, n2, m3, n3) = (a.m2(), a.m2(), a.m3(), a.m3());
+            let e23 = Matrix3::from(m2);
+            let e24 = Matrix4::from(m2);
+            let e34 = Matrix4::from(m3);
+            let mut r = vec![];
+            for c in 0..4 { for rr in 0..4 {
+                let id = if c == rr { X::int(1) } else { X::int(0) };
+                if c < 3 && rr < 3 { r.push(e23[c][rr] - if c < 2 && rr < 2 { m2[c][rr] } else { id }); }
+                r.push(e24[c][rr] - if c < 2 && rr < 2 { m2[c][rr] } else { id });
+                r.push(e34[c][rr] - if c < 3 && rr < 3 { m3[c][rr] } else { id });
+            }}
+            r.extend(diff(Matrix3::from(m2 * n2), e23 * Matrix3::from(n2)));
+            r.extend(diff(Matrix4::from(m3 * n3), e34 * Matrix4::from(n3)));
+            ok(r)
+        },
+        "o.p3.homogeneous" => |a| {
+            let (p, k) = (a.p3(), a.x());
+            if is0(&[k]) { return Out::Skip; }
+            ok(diff(Point3::from_homogeneous(p.to_homogeneous() * k), p))
+        },
         // ---------------------------------------------------------------- C03
         "o.v3.lagrange" => |a| {
             let (u, v) = (a.v3(), a.v3());
@@ -75,10 +279,14 @@ impl PerpLike for Vector3<X> {
 }
 
 pub fn names() -> Vec<String> {
-    ["o.v3.lagrange", "o.v3.cross_cross", "o.v3.cross_orth", "o.v.dot_bilinear"]
+    let mut v: Vec<String> = ["o.v3.lagrange", "o.v3.cross_cross", "o.v3.cross_orth", "o.v.dot_bilinear",
+        "o.m4.constructors", "o.m3.constructors", "o.m.embed", "o.p3.homogeneous"]
         .iter()
         .map(|s| s.to_string())
-        .collect()
+        .collect();
+    for t in ["m2", "m3", "m4"] { for o in ["product", "ring", "inverse", "det_laws", "swaps"] { v.push(format!("o.{}.{}", t, o)); } }
+    for t in ["p1", "p2", "p3"] { for o in ["affine", "centroid"] { v.push(format!("o.{}.{}", t, o)); } }
+    v
 }
 #[allow(dead_code)]
 fn _unused() -> (X, X) {
